@@ -627,4 +627,55 @@ pub mod vx_export {
         }
         Ok(bad)
     }
+
+    // ---- C13: a request racing a publish (deterministic: the database wrapper runs a publish of ANOTHER directory instance over the
+    // same database at a chosen read of the request)
+    #[derive(Clone)]
+    pub struct HookDb<TC> { inner: AsyncInMemoryDatabase, armed: Arc<AtomicBool>, _tc: std::marker::PhantomData<TC> }
+    impl<TC: Configuration> HookDb<TC> {
+        async fn fire(&self) {
+            if self.armed.swap(false, Ordering::SeqCst) {
+                if let Ok(other) = Directory::<TC, _, _>::new(StorageManager::new_no_cache(self.inner.clone()), HardCodedAkdVRF {}, AzksParallelismConfig::disabled()).await {
+                    let _ = other.publish(vec![(AkdLabel::from("a"), AkdValue::from("a-next")), (AkdLabel::from("z"), AkdValue::from("z1"))]).await;
+                }
+            }
+        }
+    }
+    #[async_trait::async_trait]
+    impl<TC: Configuration> Database for HookDb<TC> {
+        async fn set(&self, record: DbRecord) -> Result<(), StorageError> { self.inner.set(record).await }
+        async fn batch_set(&self, records: Vec<DbRecord>, state: DbSetState) -> Result<(), StorageError> { self.inner.batch_set(records, state).await }
+        async fn get<St: Storable>(&self, id: &St::StorageKey) -> Result<DbRecord, StorageError> { self.inner.get::<St>(id).await }
+        async fn batch_get<St: Storable>(&self, ids: &[St::StorageKey]) -> Result<Vec<DbRecord>, StorageError> { self.inner.batch_get::<St>(ids).await }
+        async fn get_user_data(&self, username: &AkdLabel) -> Result<KeyData, StorageError> { self.fire().await; self.inner.get_user_data(username).await }
+        async fn get_user_state(&self, username: &AkdLabel, flag: ValueStateRetrievalFlag) -> Result<ValueState, StorageError> { self.fire().await; self.inner.get_user_state(username, flag).await }
+        async fn get_user_state_versions(&self, usernames: &[AkdLabel], flag: ValueStateRetrievalFlag) -> Result<HashMap<AkdLabel, (u64, AkdValue)>, StorageError> {
+            self.inner.get_user_state_versions(usernames, flag).await
+        }
+    }
+    /// A directory instance (no cache) has published two epochs; while it serves a request (which: 0 lookup, 1 key history), right after
+    /// its read of the epoch record, ANOTHER instance over the same database publishes the next epoch. The answer must be an error or
+    /// verify against the (epoch, root hash) pair returned with it. Returns Some(description) if it is Ok but does not verify.
+    pub async fn c13_request_racing_publish<TC: Configuration>(which: u8) -> Result<Option<String>, AkdError> {
+        let armed = Arc::new(AtomicBool::new(false));
+        let db = HookDb::<TC> { inner: AsyncInMemoryDatabase::new(), armed: armed.clone(), _tc: std::marker::PhantomData };
+        let dir = Directory::<TC, _, _>::new(StorageManager::new_no_cache(db.clone()), HardCodedAkdVRF {}, AzksParallelismConfig::disabled()).await?;
+        let kv = |k: &str, v: &str| (AkdLabel::from(k), AkdValue::from(v));
+        dir.publish(vec![kv("a", "a1"), kv("b", "b1"), kv("c", "c1")]).await?;
+        dir.publish(vec![kv("a", "a2"), kv("d", "d1")]).await?;
+        let pk = dir.get_public_key().await?;
+        let la = AkdLabel::from("a");
+        armed.store(true, Ordering::SeqCst);
+        if which == 0 {
+            match dir.lookup(la.clone()).await {
+                Ok((proof, eh)) => Ok(lookup_verify::<TC>(pk.as_bytes(), eh.hash(), eh.epoch(), la, proof).err().map(|e| format!("lookup answered Ok for epoch {} but the proof does not verify against the hash returned with it: {e}", eh.epoch()))),
+                Err(_) => Ok(None),
+            }
+        } else {
+            match dir.key_history(&la, HistoryParams::Complete).await {
+                Ok((proof, eh)) => Ok(key_history_verify::<TC>(pk.as_bytes(), eh.hash(), eh.epoch(), la, proof, HistoryVerificationParams::default()).err().map(|e| format!("key_history answered Ok for epoch {} but the proof does not verify against the hash returned with it: {e}", eh.epoch()))),
+                Err(_) => Ok(None),
+            }
+        }
+    }
 }
